@@ -363,6 +363,12 @@ E('selectop', lambda s: etl.selectop(s, 'f0', 1, lambda a, b: a != b), stream=0,
 E('listoftuples', lambda s: etl.listoftuples(s), kind='scalar', group='accessors')
 E('tupleoflists', lambda s: etl.tupleoflists(s), kind='scalar', group='accessors')
 E('lookallstr', lambda s: repr(etl.lookallstr(s)), kind='scalar', group='vis')
+E('lookall-minimal', lambda s: repr(etl.lookall(s, style='minimal')), kind='scalar', group='vis')
+E('lookstr-simple', lambda s: repr(etl.lookstr(s, style='simple')), kind='scalar', group='vis')
+E('see-index-header', lambda s: repr(etl.see(s, index_header=True)), kind='scalar', group='vis')
+E('repr(wrap)', lambda s: repr(etl.wrap(s)), kind='scalar', group='vis')
+E('str(wrap)', lambda s: str(etl.wrap(s)), kind='scalar', group='vis')
+E('_repr_html_', lambda s: etl.wrap(s)._repr_html_(), kind='scalar', group='vis')
 
 
 def views():
